@@ -178,6 +178,10 @@ impl Mapper {
     
     events
   }
+  
+  pub fn is_output_held(self: &Mapper, k: &KeyCode) -> bool {
+    self.state.pass_through_keys.contains(k) || self.state.mapped_output_keys.contains(k)
+  }
 }
 
 fn is_action_key(k: &KeyCode) -> bool {
